@@ -115,6 +115,37 @@ func Motifs() []*Case {
 	fs := motifCase("foreach-with-siblings", sibSteps, map[string]*Val{"success": sibOut}, sibScript, nil)
 	fs.Subs["sub.yaml"] = sub
 	out = append(out, fs)
+	// loops whose items arrive at the very moment the result is decided: the output needs only "a",
+	// so the run is being closed down while the loops are being handed their input (five loops, as
+	// the order in which the run loop visits the ready nodes is arbitrary)
+	besideSteps := []*Step{pstep("a", nil)}
+	besideScript := map[string]vplug.Behaviour{"a": slow(20, "success")}
+	for i := 0; i < 5; i++ {
+		id := "side" + string(rune('a'+i))
+		it := items(id, 2)
+		it.Vals[0].Set("k", oexpr("a", "outputs", "success", "s"))
+		besideSteps = append(besideSteps, &Step{ID: id, Kind: "foreach", Workflow: "sub.yaml", Items: it, Parallelism: LitVal(IntLit(2))})
+	}
+	bs := motifCase("loops-fed-while-result-is-returned", besideSteps,
+		map[string]*Val{"success": MapVal([]string{"r"}, []*Val{oexpr("a", "outputs", "success", "s")})}, besideScript, nil)
+	bs.Subs["sub.yaml"] = sub
+	out = append(out, bs)
+	// a loop still waiting for its enabled condition is closed (the result needs only "trigger")
+	// while siblings keep finishing on their own every 20 ms: whatever the loop's goroutine holds
+	// while it reports the close meets a sibling's notification
+	gatedSteps := []*Step{pstep("trigger", nil)}
+	gatedScript := map[string]vplug.Behaviour{"trigger": slow(5, "success")}
+	for i := 0; i < 8; i++ {
+		id := "sib" + string(rune('a'+i))
+		gatedSteps = append(gatedSteps, pstep(id, nil))
+		gatedScript[id] = slow(30+20*i, "success")
+	}
+	gated := &Step{ID: "gated", Kind: "foreach", Workflow: "sub.yaml", Items: items("gated", 2), Parallelism: LitVal(IntLit(2)), Enabled: oexpr("sibh", "outputs", "success", "ok")}
+	gatedSteps = append(gatedSteps, gated)
+	gs := motifCase("gated-loop-closed-beside-finishing-siblings", gatedSteps,
+		map[string]*Val{"success": MapVal([]string{"r"}, []*Val{oexpr("trigger", "outputs", "success", "s")})}, gatedScript, nil)
+	gs.Subs["sub.yaml"] = sub
+	out = append(out, gs)
 	inner := &Program{Input: itemIn, Steps: []*Step{w}, Outputs: []*Output{{ID: "success", Val: MapVal([]string{"r"}, []*Val{oexpr("w", "outputs", "success", "v")})}}}
 	outer := &Program{Input: itemIn, Steps: []*Step{{ID: "in", Kind: "foreach", Workflow: "inner.yaml", Items: &Val{K: "list", Vals: []*Val{
 		MapVal([]string{"k", "n"}, []*Val{ExprVal(&Expr{K: "bin", Op: "+", Args: []*Expr{{K: "in", Field: "k"}, {K: "lit", Lit: StrLit(".in#a")}}}), ExprVal(&Expr{K: "in", Field: "n"})}),
